@@ -873,6 +873,19 @@ fn run_case(t: &mut Trace, workroot: &Path, antnode: Option<&Path>, case: &Value
         conc.insert("rec_mport".into(), json!(n.metrics_port.map(|p| p.to_string()).unwrap_or_default()));
         conc.insert("program".into(), json!(n.antnode_path.to_string_lossy()));
     }
+    // a second service added between the installation and the upgrade of the first (none / without --env / with
+    // another --env): the first service's regenerated definition must not depend on it
+    let oenv = vec![("ANT_LOG".to_string(), "other".to_string())];
+    conc.insert("oenv".into(), json!(oenv.iter().map(|(k, v)| json!([k, v])).collect::<Vec<_>>()));
+    let second = sv(o, "second");
+    if add_res == "Ok" && (second == "noenv" || second == "otherenv") {
+        let mut b = w.base_options();
+        if second == "otherenv" {
+            b.env_variables = Some(oenv.clone());
+        }
+        let _ = guarded(|| w.add(b));
+    }
+    let installs_before_upgrade = w.os.st().installs.len();
     let mut upg_res = ("NotRun", String::new());
     let mut upgrade_ctx = None;
     if add_res == "Ok" && !w.reg.nodes.is_empty() {
@@ -883,7 +896,7 @@ fn run_case(t: &mut Trace, workroot: &Path, antnode: Option<&Path>, case: &Value
             Ok(Err(e)) => ("Err", e.clone()),
             Err(p) => ("Panic", p.clone()),
         };
-        upgrade_ctx = w.os.st().installs.get(1).cloned();
+        upgrade_ctx = w.os.st().installs.get(installs_before_upgrade).cloned();
     }
     let none = json!({"exit": -3, "ok": false, "err": "not run"});
     let (node_i, node_u) = match antnode {
